@@ -1,6 +1,7 @@
 (* Entry points used by the extracted OCaml driver (and by generated cases.v
    files evaluated with vm_compute). *)
 From SV Require Export Checkers.AllocChk Checkers.ConcChk World.Lazy.
+From SV Require SaveLoad.SLOps.
 
 (* sorting of uid lists (canonical order where the real order is unspecified) *)
 Fixpoint ins_sorted (x : N) (l : list N) : list N :=
@@ -228,3 +229,7 @@ Definition dispatch_verdict (h : list Z) (t : list (list Z)) : list Z :=
     match bad with c :: _ => c | [] => 0%Z end;
     fst summ; snd summ;
     Z.of_nat (length (filter (fun o => negb (probe_consistent o)) (sel 6%Z t))) ].
+
+(* the [saveload] domain (C14/C15): transcript of the extracted model *)
+Definition saveload_transcript (uuid : bool) (h : list Z) : list (list Z) :=
+  SaveLoad.SLOps.sl_transcript uuid h.
